@@ -1,0 +1,20 @@
+// SPDX-FileCopyrightText: 2026 The Pion community <https://pion.ly>
+// SPDX-License-Identifier: MIT
+
+//go:build verif
+
+package turn
+
+import "github.com/pion/turn/v5/internal/allocation"
+
+// VerifManagers exposes the allocation managers (one per listener, in
+// configuration order) to the verification harness. Built only with -tags verif.
+func (s *Server) VerifManagers() []*allocation.Manager {
+	return s.allocationManagers
+}
+
+// VerifTransactionCount reports the number of entries in the client's
+// transaction table. Built only with -tags verif.
+func (c *Client) VerifTransactionCount() int {
+	return c.trMap.Size()
+}
